@@ -437,6 +437,8 @@ class Eval:
                 return inner["res"]["id"]
         if isinstance(cur, dict) and cur.get("k") == "Path" and cur.get("res", {}).get("r") == "local" and str(cur.get("ty", "")).startswith("&mut "):
             return cur["res"]["id"]
+        if isinstance(cur, dict) and cur.get("k") == "MethodCall" and cur.get("method") in ("last_mut", "first_mut", "get_mut", "as_mut", "iter_mut", "as_deref_mut"):
+            return self.root_local(cur["recv"])
         return None
 
     def write_back(self, root, env):
@@ -738,6 +740,23 @@ class Eval:
             self.returns = saved
             self.loops.pop()
             return ("unit",)
+        if m == "map" and len(e["args"]) == 1 and strip(e["args"][0]).get("k") == "Closure" and "Iterator::map" in (callee_generic(e) or "") \
+                and any(l_ in env for l_ in self.mutated_locals(strip(e["args"][0])["body"])):
+            # `it.map(|x| { ..mutates captured locals..; V })` is `for x in it { ..; out.push(V) }`: the closure runs once per element, in order
+            cl = strip(e["args"][0])
+            elem = self.loop_args.pop(0) if self.loop_args else ("each", recv)
+            if len(cl["params"]) == 1:
+                self.bind_pat(cl["params"][0], elem, env)
+                for lid in self.mutated_locals(cl["body"]):
+                    if lid in env and not (isinstance(env[lid], tuple) and env[lid][:1] == ("acc",)):
+                        env[lid] = ("acc", env[lid])
+                self.loops.append(recv)
+                saved = self.returns
+                self.returns = []
+                val = self.expr(cl["body"], env, depth)
+                self.returns = saved
+                self.loops.pop()
+                return ("upd", ("acc", ("call", "Vec::new", ())), "push", (val,))
         if m in CLOSURE_LOOPS and self.effect_calls and e["args"] and all(strip(a).get("k") == "Closure" for a in e["args"]) and "Iterator::" in (callee_generic(e) or ""):
             # effects recorded inside `it.map(|x| ..)` / filter / flat_map / inspect happen once per element of `it`
             mark = len(self.out)
@@ -1045,6 +1064,34 @@ def set_at(term, path, value):
         i = int(f)
         return ("list", tuple(set_at(v, path[1:], value) if j == i else v for j, v in enumerate(term[1])))
     return ("upd", term, "set@" + ".".join("%s.%s" % hf for hf in path), (value,))
+
+
+def anon_format(t):
+    """format / write templates in one spelling: named placeholders made positional (`{i}` -> `{}`; the arguments are already in placeholder
+    order), literal string / integer arguments folded into the text"""
+    import re as _re
+    if not isinstance(t, tuple):
+        return t
+    t = tuple(anon_format(x) for x in t)
+    if t[:1] in (("format",), ("write",)) and len(t) == 3 and isinstance(t[1], str) and isinstance(t[2], tuple):
+        parts = _re.split(r"(\{\{|\}\}|\{[^{}]*\})", t[1])
+        out, args, k = [], [], 0
+        for p_ in parts:
+            if p_.startswith("{") and p_.endswith("}") and p_ not in ("{{", "}}"):
+                spec = p_[1:-1]
+                fmt = spec[spec.index(":"):] if ":" in spec else ""
+                a = t[2][k] if k < len(t[2]) else None
+                k += 1
+                if not fmt and isinstance(a, tuple) and a[:1] == ("lit",) and isinstance(a[1], (str, int)) and not isinstance(a[1], bool):
+                    out.append(str(a[1]).replace("{", "{{").replace("}", "}}"))
+                else:
+                    out.append("{%s}" % fmt)
+                    args.append(a)
+            else:
+                out.append(p_)
+        if k == len(t[2]):
+            return (t[0], "".join(out), tuple(args))
+    return t
 
 
 def drop_never(t):
